@@ -1,0 +1,141 @@
+//! Verification seams. Compiled only with `--cfg bpaf_verif`, absent from normal builds.
+//!
+//! Nothing in here changes what bpaf does: it lets a test harness stand in for the process
+//! environment, argument vector, output streams and `process::exit` by shadowing the names the
+//! rest of the crate already uses. With no [`api::World`] installed every shadow forwards to the
+//! real `std` item, so a `bpaf_verif` build without a harness behaves like a normal build.
+//!
+//! - `println!`/`print!`/`eprintln!` below shadow the prelude macros for every module declared
+//!   after `mod verif` in `lib.rs`.
+//! - `verif::std` re-exports `::std` with `env::var_os`, `env::args_os` and `process::exit`
+//!   replaced; modules that touch those add `use crate::verif::std;`.
+//! - `tick()` is a step counter used as a deterministic watchdog.
+
+macro_rules! println {
+    () => { $crate::verif::emit(1, ::std::format_args!("\n")) };
+    ($($arg:tt)*) => {
+        $crate::verif::emit(1, ::std::format_args!("{}\n", ::std::format_args!($($arg)*)))
+    };
+}
+
+#[allow(unused_macros)]
+macro_rules! print {
+    ($($arg:tt)*) => { $crate::verif::emit(1, ::std::format_args!($($arg)*)) };
+}
+
+#[allow(unused_macros)]
+macro_rules! eprintln {
+    () => { $crate::verif::emit(2, ::std::format_args!("\n")) };
+    ($($arg:tt)*) => {
+        $crate::verif::emit(2, ::std::format_args!("{}\n", ::std::format_args!($($arg)*)))
+    };
+}
+
+pub mod api {
+    use ::std::cell::RefCell;
+    use ::std::ffi::{OsStr, OsString};
+
+    /// Everything ambient bpaf can observe or affect, as seen by a harness
+    pub trait World {
+        /// `std::env::var_os`
+        fn var_os(&mut self, key: &OsStr) -> Option<OsString>;
+        /// `std::env::args_os`, including `argv[0]`
+        fn args_os(&mut self) -> Vec<OsString>;
+        /// bytes given to `print!`-family macros, fd is 1 or 2; `Err` makes the macro panic the
+        /// way std does (`failed printing to stdout: ..`)
+        fn write(&mut self, fd: i32, bytes: &[u8]) -> Result<(), String>;
+        /// `std::process::exit` was called; the shadow unwinds with [`SimExit`] afterwards
+        fn exit(&mut self, code: i32);
+        /// one step of work; returning `true` unwinds with [`StepBudgetExceeded`]
+        fn tick(&mut self) -> bool;
+    }
+
+    /// Panic payload standing in for a process exit
+    #[derive(Debug, Clone, Copy, PartialEq, Eq)]
+    pub struct SimExit(pub i32);
+
+    /// Panic payload raised when [`World::tick`] reports an exhausted budget
+    #[derive(Debug, Clone, Copy, PartialEq, Eq)]
+    pub struct StepBudgetExceeded;
+
+    thread_local! {
+        pub(crate) static WORLD: RefCell<Option<Box<dyn World>>> = RefCell::new(None);
+    }
+
+    /// Install a world for the current thread, returns the previous one
+    pub fn install(world: Box<dyn World>) -> Option<Box<dyn World>> {
+        WORLD.with(|w| w.borrow_mut().replace(world))
+    }
+
+    /// Remove the world of the current thread
+    pub fn uninstall() -> Option<Box<dyn World>> {
+        WORLD.with(|w| w.borrow_mut().take())
+    }
+
+    pub(crate) fn with<R>(f: impl FnOnce(&mut dyn World) -> R) -> Option<R> {
+        WORLD.with(|w| match w.try_borrow_mut() {
+            Ok(mut guard) => guard.as_mut().map(|world| f(world.as_mut())),
+            Err(_) => None,
+        })
+    }
+}
+
+pub(crate) fn emit(fd: i32, args: ::std::fmt::Arguments) {
+    let text = args.to_string();
+    match api::with(|w| w.write(fd, text.as_bytes())) {
+        Some(Ok(())) => {}
+        Some(Err(e)) => {
+            let name = if fd == 1 { "stdout" } else { "stderr" };
+            panic!("failed printing to {}: {}", name, e)
+        }
+        None => {
+            if fd == 1 {
+                ::std::print!("{}", text)
+            } else {
+                ::std::eprint!("{}", text)
+            }
+        }
+    }
+}
+
+#[inline]
+pub(crate) fn tick() {
+    if api::with(|w| w.tick()) == Some(true) {
+        ::std::panic::resume_unwind(Box::new(api::StepBudgetExceeded));
+    }
+}
+
+#[allow(unused_imports)]
+pub(crate) mod std {
+    pub use ::std::*;
+
+    pub mod env {
+        pub use ::std::env::*;
+        use ::std::ffi::{OsStr, OsString};
+
+        pub fn var_os<K: AsRef<OsStr>>(key: K) -> Option<OsString> {
+            match crate::verif::api::with(|w| w.var_os(key.as_ref())) {
+                Some(v) => v,
+                None => ::std::env::var_os(key),
+            }
+        }
+
+        pub fn args_os() -> ::std::vec::IntoIter<OsString> {
+            match crate::verif::api::with(|w| w.args_os()) {
+                Some(v) => v.into_iter(),
+                None => ::std::env::args_os().collect::<Vec<_>>().into_iter(),
+            }
+        }
+    }
+
+    pub mod process {
+        pub use ::std::process::*;
+
+        pub fn exit(code: i32) -> ! {
+            match crate::verif::api::with(|w| w.exit(code)) {
+                Some(()) => ::std::panic::resume_unwind(Box::new(crate::verif::api::SimExit(code))),
+                None => ::std::process::exit(code),
+            }
+        }
+    }
+}
